@@ -15,6 +15,9 @@ Lo == 2
 Hi == 5
 
 Kinds == {"int", "uint", "float", "bool", "string", "bytes"}
+\* sized numbers (HTTP transport envelope; the gRPC specification has its own width dimension)
+WideKinds == {"int32", "int64", "uint32", "uint64", "float32"}
+AllKinds == Kinds \cup WideKinds
 Locs == {"path", "query", "header", "cookie", "body"}
 Modes == {"required", "optional", "default"}
 Rules == {"none", "min", "max", "xmin", "xmax", "minlen", "maxlen", "enum", "pattern", "format", "cminlen", "cmaxlen"}
@@ -32,9 +35,11 @@ Absent == V("absent", 0, "plain", 0)
 \* ---------------------------------------------------------------- attribute shapes
 Attr(k, l, m, r, ns) == [kind |-> k, loc |-> l, mode |-> m, rule |-> r, nest |-> ns]
 
-NumKinds == {"int", "uint", "float"}
+NumKinds == {"int", "uint", "float"} \cup WideKinds
+FloatKinds == {"float", "float32"}
 WFAttr(a) ==
-  /\ (a.loc = "path" => a.mode = "required" /\ a.kind \in {"int", "uint", "float", "bool", "string"} /\ a.nest \in {"direct", "alias"})
+  /\ (a.loc = "path" => a.mode = "required" /\ a.kind \in {"int", "uint", "float", "bool", "string"} \cup WideKinds /\ a.nest \in {"direct", "alias"})
+  /\ (a.kind \in WideKinds => a.nest \in {"direct", "alias", "elem", "mapval"} /\ a.rule \in {"none", "min", "xmax"})
   /\ (a.loc = "cookie" => a.nest \in {"direct", "alias"} /\ a.kind # "bytes")
   /\ (a.loc \in {"query", "header"} => a.nest \in {"direct", "alias", "elem"} /\ a.kind # "bytes")
   /\ (a.nest \in {"mapkey", "mapval", "nested"} \cup Deep => a.loc = "body")
@@ -49,11 +54,11 @@ WFAttr(a) ==
   /\ (a.mode = "default" => a.nest \in {"direct", "alias"} /\ a.kind # "bytes")
   \* a required non-pointer field cannot be told from its zero value on the Go side; nothing to exclude,
   \* the value space below only offers "absent" where Go can express it
-AttrSpace == {a \in [kind: Kinds, loc: Locs, mode: Modes, rule: Rules, nest: Nests] : WFAttr(a)}
+AttrSpace == {a \in [kind: AllKinds, loc: Locs, mode: Modes, rule: Rules, nest: Nests] : WFAttr(a)}
 
 \* ---------------------------------------------------------------- value space
 \* numeric reading of a value for the range rules, doubled so that halves stay integers
-Num2(v) == CASE v.cls = "float" /\ v.s = "half" -> 2 * v.n + 1
+Num2(v) == CASE v.cls \in FloatKinds /\ v.s = "half" -> 2 * v.n + 1
              [] v.s = "neg" -> 0 - 2 * v.n
              [] v.s = "big" -> 2000000
              [] OTHER -> 2 * v.n
@@ -63,6 +68,11 @@ LeafVals(kind) ==
                           \cup {V("int", 3, "neg", 1), V("int", 9, "big", 1)}
     [] kind = "uint"   -> {V("uint", k, "plain", 1) : k \in {0, Lo - 1, Lo, Lo + 1, Hi, Hi + 1}} \cup {V("uint", 9, "big", 1)}
     [] kind = "float"  -> {V("float", k, sh, 1) : k \in {0, Lo - 1, Lo, Hi - 1, Hi}, sh \in {"plain", "half"}}
+    [] kind \in {"int32", "int64"} -> {V(kind, k, "plain", 1) : k \in {0, Lo - 1, Lo, Hi, Hi + 1}} \cup {V(kind, 3, "neg", 1)}
+                                        \cup (IF kind = "int64" THEN {V(kind, 9, "big", 1)} ELSE {})
+    [] kind \in {"uint32", "uint64"} -> {V(kind, k, "plain", 1) : k \in {0, Lo - 1, Lo, Hi, Hi + 1}}
+                                        \cup (IF kind = "uint64" THEN {V(kind, 9, "big", 1)} ELSE {})
+    [] kind = "float32" -> {V(kind, k, sh, 1) : k \in {0, Lo - 1, Lo, Hi}, sh \in {"plain", "half"}}
     [] kind = "bool"   -> {V("bool", k, "plain", 1) : k \in {0, 1}}
     [] kind = "string" -> {V("string", k, sh, 1) : k \in {Lo - 1, Lo, 3, Hi, Hi + 1}, sh \in StrShapes}
                           \cup {V("string", 0, "empty", 1)}
@@ -89,6 +99,8 @@ PayloadVals(a) == {v \in ValsOf(a) : ~(a.loc = "path" /\ v.s = "empty")} \cup (I
 DefaultOf(a) == CASE a.kind = "int" -> V("int", 3, "plain", 1)
                   [] a.kind = "uint" -> V("uint", 3, "plain", 1)
                   [] a.kind = "float" -> V("float", 3, "half", 1)
+                  [] a.kind \in {"int32", "int64", "uint32", "uint64"} -> V(a.kind, 3, "plain", 1)
+                  [] a.kind = "float32" -> V("float32", 3, "half", 1)
                   [] a.kind = "bool" -> V("bool", 1, "plain", 1)
                   [] a.kind = "string" -> V("string", 3, "plain", 1)
                   [] OTHER -> Absent
